@@ -71,28 +71,51 @@ func c12SwitchKeys(fi *FuncInfo) (keys []int64, pos token.Pos) {
 	return
 }
 
-// handlerOf: the method of the emulator that update() dispatches a CSI with the given key and one parameter to
-// (the last inlined method on the path whose body contains a constant-case switch).
+// csiHandler: the method of the emulator that update() dispatches a CSI with the given key and one parameter to
+// (the first inlined method below the dispatcher whose body distinguishes integer keys), together with the keys
+// that method and the helpers it calls distinguish (a lookup extracted into a helper still contributes its keys).
 func (st *c12State) csiHandler(raw string) *FuncInfo {
+	fi, _ := st.csiHandlerKeys(raw)
+	return fi
+}
+
+func (st *c12State) csiHandlerKeys(raw string) (*FuncInfo, []int64) {
 	var out *FuncInfo
+	seen := map[int64]bool{}
+	var keys []int64
 	for _, s := range parseSeqs(raw) {
 		paths, _, err := st.feedEmulator(s, 0, nil)
 		if err != nil {
-			return nil
+			return nil, nil
 		}
 		for _, p := range paths {
+			below := map[string]bool{}
 			for _, cl := range p.Calls {
-				if cl.Inlined && cl.Fn != nil {
-					if fi := st.c.P.FuncOfObj(cl.Fn); fi != nil {
-						if ks, _ := c12SwitchKeys(fi); len(ks) > 0 && fi != st.csiFn {
-							out = fi
-						}
+				if !cl.Inlined || cl.Fn == nil {
+					continue
+				}
+				fi := st.c.P.FuncOfObj(cl.Fn)
+				if fi == nil || fi == st.csiFn {
+					continue
+				}
+				ks, _ := c12SwitchKeys(fi)
+				if out == nil && len(ks) > 0 {
+					out = fi
+				}
+				if out == nil || (fi != out && !below[cl.In]) {
+					continue
+				}
+				below[fi.Name] = true
+				for _, k := range ks {
+					if !seen[k] {
+						seen[k] = true
+						keys = append(keys, k)
 					}
 				}
 			}
 		}
 	}
-	return out
+	return out, keys
 }
 
 type c12ModeEff struct {
@@ -158,16 +181,16 @@ func (st *c12State) siblings() {
 	}
 	for _, f := range fams {
 		inst := func(t string, k int64) string { return strings.Replace(t, "%d", fmt.Sprint(k), 1) }
-		f.hSet, f.hRst = st.csiHandler(inst(f.set, 1)), st.csiHandler(inst(f.rst, 1))
+		var ks, kr, kq []int64
+		f.hSet, ks = st.csiHandlerKeys(inst(f.set, 1))
+		f.hRst, kr = st.csiHandlerKeys(inst(f.rst, 1))
 		if f.rqm != "" {
-			f.hQ = st.csiHandler(inst(f.rqm, 1))
+			f.hQ, kq = st.csiHandlerKeys(inst(f.rqm, 1))
 		}
 		if f.hSet == nil || f.hRst == nil || (f.rqm != "" && f.hQ == nil) {
 			c.undecided("C12.b", f.name+"/handlers", st.update.Decl.Pos(), "could not find the set/reset/report handlers the emulator dispatches %q, %q, %q to", f.set, f.rst, f.rqm)
 			continue
 		}
-		ks, _ := c12SwitchKeys(f.hSet)
-		kr, _ := c12SwitchKeys(f.hRst)
 		all := map[int64]bool{}
 		inSet, inRst, inQ := map[int64]bool{}, map[int64]bool{}, map[int64]bool{}
 		for _, k := range ks {
@@ -176,11 +199,8 @@ func (st *c12State) siblings() {
 		for _, k := range kr {
 			all[k], inRst[k] = true, true
 		}
-		if f.hQ != nil {
-			kq, _ := c12SwitchKeys(f.hQ)
-			for _, k := range kq {
-				all[k], inQ[k] = true, true
-			}
+		for _, k := range kq {
+			all[k], inQ[k] = true, true
 		}
 		var keys []int64
 		for k := range all {
@@ -219,11 +239,15 @@ func (st *c12State) siblings() {
 				continue
 			}
 			qkey := fmt.Sprintf("%s %d/report agrees with set/reset (%s)", f.name, k, f.hQ.Name)
-			if inQ[k] != (inSet[k] && inRst[k]) {
-				c.bad("C12.b", qkey, f.hQ.Decl.Pos(), "mode %d: reported by %s: %v, implemented by set/reset: %v — the emulator reports a mode it does not implement (or hides one it does)", k, f.hQ.Name, inQ[k], inSet[k] && inRst[k])
-				continue
+			// Decided on the replies, not on the presence of a case: a mode that set/reset do not implement must be
+			// reported as not recognised (0); a mode with state must be reported from that state (1/2); for a mode
+			// without state (an accepted no-op) any constant is consistent, whether it is written as an empty case,
+			// a default or a table miss.
+			implemented := inSet[k] && inRst[k]
+			var on c12ModeEff
+			if implemented {
+				on, _ = st.modeEffects(inst(f.set, k))
 			}
-			on, _ := st.modeEffects(inst(f.set, k))
 			var bad []string
 			nrep := 0
 			for _, s := range parseSeqs(inst(f.rqm, k)) {
@@ -255,6 +279,10 @@ func (st *c12State) siblings() {
 							}
 						}
 						switch {
+						case !implemented:
+							if v != 0 {
+								bad = append(bad, fmt.Sprintf("mode %d is reported with %d by %s, but set/reset do not implement it (set: %v, reset: %v) — the emulator reports a mode it does not implement", k, v, f.hQ.Name, inSet[k], inRst[k]))
+							}
 						case fld == nil && len(on.fields) == 0:
 							// mode without state: any constant
 						case fld == nil:
